@@ -30,6 +30,27 @@ theorem shape_splitMessage : Facts.shape_splitMessage = some "87612613cc56ed28" 
 /-- [C08,C09] the only statement that sends on `conn.out` is in `Raw` -/
 theorem only_Raw_sends : Facts.sendersOnOut = some ["Conn.Raw"] := by decide
 
+/-- [C08,C09] `write` (WriteString + Flush on the socket's buffered writer) is called by the send goroutine only:
+no handler and no API method writes to the socket behind the queue's back -/
+theorem only_send_writes : Facts.callersOfWrite = some ["Conn.send"] := by decide
+
+/-- [C09] `conn.out` is received from by `send` (the consumer) and by the drain loop of `closeFor` only -/
+theorem only_send_receives : Facts.receiversOnOut = some ["Conn.closeFor", "Conn.send"] := by decide
+
+/-- [C08,C09] the functions that touch `conn.sock` / `conn.io` at all: connection set-up and teardown, the reader, `write` -/
+theorem socket_users : Facts.socketUsers = some ["Conn.closeFor", "Conn.initialise", "Conn.internalConnect",
+    "Conn.postConnect", "Conn.recvFor", "Conn.write"] := by decide
+
+/-- [C06,C07] the `*Conn` methods that take `conn.mu` -/
+theorem mu_lockers : Facts.muLockers = some ["Conn.DisableStateTracking", "Conn.EnableStateTracking",
+    "Conn.closeFor", "Conn.internalConnect"] := by decide
+
+/-- [C06,C07,C16] `closeFor` waits, holding `conn.mu`, for the goroutines ping / recvFor / runLoop / send: by direct
+method calls none of them reaches a method that takes `conn.mu`, except `closeFor` itself (which each calls only
+after its `wg.Done()`: see the shape facts) - so the wait cannot be a lock cycle through the library's own code -/
+theorem conn_goroutines_take_no_mu : Facts.muReachableFromConnGoroutines =
+    some ["ping->", "recvFor->closeFor", "runLoop->closeFor", "send->closeFor"] := by decide
+
 /-- [C08] the exported `*Conn` methods from which `Raw` is reachable are exactly the modelled command
 methods (`Go.Cmd`, with Privmsgln/Privmsgf) plus the Connect family (through the ping goroutine) -/
 theorem api_methods : Facts.exportedReachingRaw = some ["Action", "Authenticate", "Away", "Cap", "Connect",
@@ -270,7 +291,7 @@ theorem shape_Conn_h_PING : Facts.shape_Conn_h_PING = some "02bfeef3d2f7e297" :=
 theorem shape_hasPort : Facts.shape_hasPort = some "f92aadd816c5f5b2" := by decide
 
 /-- [C06,C07,C18] `Conn.internalConnect` is the body the model transcribes -/
-theorem shape_Conn_internalConnect : Facts.shape_Conn_internalConnect = some "5c30fade9780767b" := by decide
+theorem shape_Conn_internalConnect : Facts.shape_Conn_internalConnect = some "bcb465179f058fe4" := by decide
 
 /-- [C18] `Conn.dialProxy` is the body the model transcribes -/
 theorem shape_Conn_dialProxy : Facts.shape_Conn_dialProxy = some "d7fcd714c9fb39d2" := by decide
@@ -464,14 +485,19 @@ theorem shape_Conn_ConnectContext : Facts.shape_Conn_ConnectContext = some "6b90
 /-- [C06,C07] `Conn.Close` is the body the model transcribes -/
 theorem shape_Conn_Close : Facts.shape_Conn_Close = some "dd307aad985d0218" := by decide
 
-/-- [C06,C07] `Conn.closeFor` is the body the model transcribes -/
-theorem shape_Conn_closeFor : Facts.shape_Conn_closeFor = some "7677fcb16908cfe7" := by decide
+/-- [C03,C06,C07] `Conn.closeFor` is the body the model transcribes (it keeps `mu` until every goroutine, and so every
+foreground handler, of the connection has finished: a new connection cannot start before) -/
+theorem shape_Conn_closeFor : Facts.shape_Conn_closeFor = some "7a4905e768233287" := by decide
 
 /-- [C06,C07] `Conn.initialise` is the body the model transcribes -/
 theorem shape_Conn_initialise : Facts.shape_Conn_initialise = some "ea200d427896e9d6" := by decide
 
-/-- [C06,C07] `Conn.Connected` is the body the model transcribes -/
-theorem shape_Conn_Connected : Facts.shape_Conn_Connected = some "e2923fb475642ec1" := by decide
+/-- [C06,C07] `Conn.Connected` is the body the model transcribes: it reads the flag under `cmu`, not under `mu`, so
+a handler that asks does not wait for a teardown in progress (the model's handlers never need `mu`) -/
+theorem shape_Conn_Connected : Facts.shape_Conn_Connected = some "9be693d3ea187476" := by decide
+
+/-- [C06,C07] `Conn.setConnected`: the only writer of the flag; `cmu` is held for the assignment alone -/
+theorem shape_Conn_setConnected : Facts.shape_Conn_setConnected = some "fafe01e0098f8642" := by decide
 
 /-- [C02,C13] `Conn.h.JOIN` is the body the model transcribes -/
 theorem shape_Conn_h_JOIN : Facts.shape_Conn_h_JOIN = some "4e8bac6d5ca61bab" := by decide
